@@ -2,10 +2,10 @@
 # runs every claimed check (quick tier unless $1 given) on the current tree; one line per property in /verif/.cache/runall.txt
 cd /verif
 tier=${1:-quick}
-: > .cache/runall.txt
+: > .cache/runall-$tier.txt
 for p in $(python3 -c "import json;print(' '.join(c['property_id'] for c in json.load(open('MANIFEST.json'))['checks']))"); do
   s=$(date +%s)
   out=$(./check $p --tier $tier 2>&1); rc=$?
-  echo "$p exit=$rc $(( $(date +%s) - s ))s $(echo "$out" | grep -E '^(VIOLATION|KNOWN-FINDING)' | head -2 | tr '\n' ' ')" >> .cache/runall.txt
+  echo "$p exit=$rc $(( $(date +%s) - s ))s $(echo "$out" | grep -E '^(VIOLATION|KNOWN-FINDING)' | head -2 | tr '\n' ' ')" >> .cache/runall-$tier.txt
 done
-echo done >> .cache/runall.txt
+echo done >> .cache/runall-$tier.txt
